@@ -26,7 +26,7 @@ QUERY_SETS = {
     "C03": ["unwind", "sup", "repr_spec"],
     "C07": ["unwind", "progress"],
     "C09": ["unwind", "missing", "invalid"],
-    "C14": ["unwind", "retag"],
+    "C14": ["unwind", "retag", "sup"],
 }
 
 
@@ -192,7 +192,7 @@ class TypeCheck:
             return "invalid content of :%s: reported as %s" % (fields[g][0], out.get("display"))
         return None
 
-    def ask(self, name, kind, formulas, extra_fn=None, max_models=4, bad_index_term=None):
+    def ask(self, name, kind, formulas, extra_fn=None, max_models=10, bad_index_term=None):
         """Solve; every model is concretised and replayed. Returns result dict."""
         from common import replay_batch
         q, m = self.q, self.q.m
@@ -243,9 +243,16 @@ class TypeCheck:
             if len(tried) >= max_models:
                 res["verdict"] = "sat-not-reproduced"
                 break
-            # block this token list (tags and n) and look for another model
+            # block this token list (tags and n) and look for another model; the first few retries also ask for a
+            # tag that did not occur in the non-reproducing model (moves the search to another option / field)
             n = model.eval(m.n, model_completion=True).as_long()
             s.add(z3.Or(m.n != n, *[m.tag[i] != model.eval(m.tag[i], model_completion=True) for i in range(n)]))
+            if len(tried) <= max_models // 2:
+                used = set(model.eval(m.tag[i], model_completion=True).as_long() for i in range(n))
+                s.push()
+                s.add(z3.Or(*[z3.And(i < m.n, z3.And(*[m.tag[i] != u for u in used])) for i in range(self.N)]))
+                if s.check() != z3.sat:
+                    s.pop()
         res["time_s"] = round(time.time() - t0, 2)
         res["models_tried"] = tried[:3]
         self.results.append(res)
